@@ -261,3 +261,190 @@ def has(prog, kind):
         if st[0] == "include" and has(st[1], kind):
             return True
     return False
+
+
+# ------------------------------------------------------------------------------------------------ literal bytes
+# The reporting paths (listing echo of tokens_get_char, -dump_macros, print_info) see the RAW character stream of the
+# source, not statements: what matters for "the image does not depend on the reporting options" is therefore also the
+# class of every character, inside and outside literals.  These programs are not in the modelled language (the oracle
+# streams compare the real code with itself under the option matrix); the text is latin-1, one byte per character.
+
+def legal_in(quote, body=False):
+    """byte values that may stand, unescaped, inside a literal closed by `quote`: everything but NUL, newline, the closing
+    quote and backslash.  CR is dropped by the reader in every configuration: it stays in the set for strings, not for
+    the one-character constants ('' is rejected).  body=True: the literal stands in the text of a .define / .macro / equ
+    or in a macro argument, where 0x01 is the parameter marker, ; // /* start a comment also inside quotes and the
+    other quote character / comma / parentheses confuse the argument splitter (all of that is C09's business)."""
+    out = [b for b in range(1, 256) if b not in (0x0a, ord(quote), 0x5c)]
+    if quote == "'":
+        out.remove(0x0d)
+    if body:
+        out = [b for b in out if b not in (0x01, 0x3b, 0x2f, 0x2a, 0x22, 0x27, 0x2c, 0x28, 0x29)]
+    return out
+
+
+SPECIAL_BYTES = [0x09, 0x01, 0x08, 0x0b, 0x0c, 0x0d, 0x1a, 0x1b, 0x1f, 0x20, 0x22, 0x27, 0x3b, 0x2f, 0x7e, 0x7f, 0x80, 0x81,
+                 0xa0, 0xc3, 0xfe, 0xff]
+
+LIT_CPUS = {
+    # cpu -> (instruction taking a character constant, or None; plain filler instruction)
+    "msp430": ("  mov.b #%s, r6", "  mov.w r5, r6"),
+    "z80": ("  ld a, %s", "  nop"),
+    "6502": ("  lda #%s", "  nop"),
+    "68000": ("  move.b #%s, d1", "  nop"),
+    "8051": ("  mov A, #%s", "  nop"),
+    "avr8": ("  ldi r16, %s", "  nop"),
+    "mips": (None, "  nop"),
+    "tms9900": (None, "  clr r1"),
+}
+
+
+def _chr(b):
+    return bytes([b]).decode("latin-1")
+
+
+def _string(bs):
+    return '"' + "".join(_chr(b) for b in bs) + '"'
+
+
+def _tick(b):
+    return "'" + _chr(b) + "'"
+
+
+def literal_fixed():
+    """[(label, source)]: between them every legal byte value inside a "string" (of .db / .ascii / .asciiz), inside a
+    'c' constant, inside a .define body and inside a .macro body; the bytes are spread over small programs so that one
+    rejected byte does not hide the others"""
+    out = []
+    sq, tq = legal_in('"'), legal_in("'")
+    dirs = [".db", ".ascii", ".asciiz"]
+    for i in range(0, len(sq), 16):
+        chunk = sq[i:i + 16]
+        d = dirs[(i // 16) % 3]
+        out.append(("literal:string:%02x" % chunk[0],
+                    ".msp430\n.org 0x200\nstart:\n  %s %s\nafter:\n  .dw after\n  %s %s, 0\n" %
+                    (d, _string(chunk), dirs[(i // 16 + 1) % 3], _string(chunk[::-1]))))
+    for i in range(0, len(tq), 16):
+        chunk = tq[i:i + 16]
+        body = "".join("  .db %s, %d\n" % (_tick(b), k) for k, b in enumerate(chunk[:8]))
+        body += "  .db " + ", ".join(_tick(b) for b in chunk[8:]) + "\n" if chunk[8:] else ""
+        out.append(("literal:tick:%02x" % chunk[0], ".msp430\n.org 0x300\n" + body + "end:\n  .dw end\n"))
+    bq = legal_in('"', body=True)
+    for i in range(0, len(bq), 32):
+        chunk = bq[i:i + 32]
+        t = [b for b in chunk if b != 0x0d] * 3
+        src = ".msp430\n.define TEXT %s\n.define CH %s\n.org 0x400\n  .db TEXT\nmid:\n  .db CH, 1\n" % (_string(chunk), _tick(t[0]))
+        src += ".macro M\n  .ascii %s\n  .db %s\n.endm\n  M\n.macro P(a, b)\n  .db a, b, %s\n.endm\n  P(%s, %s)\nend:\n  .dw mid, end\n" % \
+            (_string(chunk[::2]), _tick(t[1]), _string(chunk[1::2]), _tick(t[2]), _string(chunk[3:6]))
+        out.append(("literal:define-macro:%02x" % chunk[0], src))
+    # the seeded shape: TAB in a string and in a character constant of an instruction operand
+    out.append(("literal:tab", ".msp430\n.org 0x200\nstart:\n\tmov.w #msg, r5\n\tmov.b #'\t', r6\n\tret\nmsg:\n\t.db \"col1\tcol2\tend\", 0\n"))
+    return out
+
+
+class LitGen:
+    """random programs with raw bytes of every class inside literals, in comments and as separators"""
+
+    def __init__(self, rng):
+        self.rng = rng
+        self.stats = {}
+
+    def count(self, k):
+        self.stats[k] = self.stats.get(k, 0) + 1
+
+    def byte(self, quote, body=False):
+        rng = self.rng
+        pool = legal_in(quote, body)
+        if rng.random() < 0.55:
+            b = rng.choice(SPECIAL_BYTES)
+            if b in pool:
+                return b
+        return rng.choice(pool)
+
+    def string(self, lo=1, hi=10, body=False):
+        bs = [self.byte('"', body) for _ in range(self.rng.randrange(lo, hi))]
+        for b in bs:
+            self.count("byte:" + ("tab" if b == 9 else "ctrl" if b < 0x20 else "del" if b == 0x7f else "high" if b >= 0x80 else
+                                  "punct" if not _chr(b).isalnum() else "alnum"))
+        return _string(bs)
+
+    def tick(self, body=False):
+        b = self.byte("'", body)
+        self.count("tick:" + ("tab" if b == 9 else "ctrl" if b < 0x20 else "high" if b >= 0x7f else "print"))
+        return _tick(b)
+
+    def sep(self):
+        """token separator: blanks and tabs (the character class the listing echo must leave alone too)"""
+        return self.rng.choice([" ", "  ", "\t", "\t\t", " \t", "\t "])
+
+    def comment(self):
+        rng = self.rng
+        if rng.random() < 0.6:
+            return ""
+        body = "".join(_chr(rng.choice(SPECIAL_BYTES + [0x41, 0x61, 0x30])) for _ in range(rng.randrange(0, 8)))
+        body = body.replace("\n", "").replace("\r", "").replace("*", "")
+        self.count("comment")
+        return self.sep() + rng.choice([";", "//"]) + body
+
+    def program(self):
+        rng = self.rng
+        cpu = rng.choice(sorted(LIT_CPUS))
+        insn, filler = LIT_CPUS[cpu]
+        eol = "\r\n" if rng.random() < 0.15 else "\n"
+        lines = ["." + cpu, ".org 0x%x" % rng.choice([0, 0x100, 0x200, 0x1000])]
+        names = []
+        for k in range(rng.randrange(3, 9)):
+            r = rng.random()
+            s = self.sep()
+            if r < 0.22:
+                d = rng.choice([".db", ".db", ".ascii", ".asciiz"])
+                ops = [self.string()]
+                if d == ".db":
+                    for _ in range(rng.randrange(0, 3)):
+                        ops.append(rng.choice([self.string(1, 5), self.tick(), "0x%02x" % rng.randrange(256)]))
+                lines.append(s + d + self.sep() + ("," + self.sep()).join(ops) + self.comment())
+                self.count("stmt:" + d)
+            elif r < 0.36:
+                d = rng.choice([".db", ".db", ".dw", ".dc16", ".dc32"])
+                lines.append(s + d + self.sep() + ", ".join(self.tick() for _ in range(rng.randrange(1, 4))) + self.comment())
+                self.count("stmt:tick-" + d)
+            elif r < 0.46 and insn:
+                lines.append(insn.replace("  ", s, 1) % self.tick() + self.comment())
+                self.count("stmt:insn-tick")
+            elif r < 0.58:
+                n = "D%d" % k
+                if rng.random() < 0.5:
+                    lines.append(".define" + self.sep() + n + self.sep() + self.string(body=True) + self.comment())
+                    lines.append(s + rng.choice([".db", ".ascii"]) + " " + n)
+                else:
+                    lines.append(".define" + self.sep() + n + self.sep() + self.tick(True) + self.comment())
+                    lines.append(s + ".db " + n + ", 7")
+                self.count("stmt:define")
+            elif r < 0.70:
+                n = "M%d" % k
+                if rng.random() < 0.5:
+                    lines += [".macro " + n, s + ".db" + self.sep() + self.string(body=True) + ", " + self.tick(True) + self.comment(), ".endm", s + n]
+                    self.count("stmt:macro")
+                else:
+                    lines += [".macro " + n + "(a, b)", s + ".db a," + self.sep() + "b, " + self.string(1, 4, True), ".endm",
+                              s + n + "(" + self.tick(True) + ", " + rng.choice([self.string(1, 5, True), self.tick(True), "3"]) + ")"]
+                    self.count("stmt:macro-args")
+            elif r < 0.78:
+                n = "E%d" % k
+                lines.append(n + " equ " + self.tick(True) + self.comment())
+                lines.append(s + ".db " + n + ", 1")
+                self.count("stmt:equ")
+            elif r < 0.86:
+                n = "L%d" % k
+                names.append(n)
+                lines.append(n + ":" + self.comment())
+                self.count("stmt:label")
+            else:
+                lines.append(filler.replace("  ", s, 1) + self.comment())
+                self.count("stmt:insn")
+        lines.append("tail:")
+        lines.append("  .dw tail" + "".join(", " + n for n in names[:3]))
+        self.count("cpu:" + cpu)
+        if eol != "\n":
+            self.count("eol:crlf")
+        return "literal:random:" + cpu, eol.join(lines) + eol
